@@ -13,7 +13,7 @@ HOUR = 3600 * 10**9
 SHORT = 3 * 10**6          # the real timeout used for the 503 branch: 3 ms
 CODES = [200, 201, 204, 301, 400, 404, 500, 502, 504, 101]
 INFO_CODES = [100, 102, 103, 199]      # informational: sent at once by net/http, not the status
-BAD_CODES = [0, 99, 600, 1000]
+BAD_CODES = [0, 99, 600, 1000, 999, -1]
 SHORT20 = 20 * 10**6       # a real timeout for server cases: 20 ms
 OV = os.path.join(vlib.HARNESS, "overlay")
 
@@ -92,9 +92,74 @@ class C04(Property):
     # ------------------------------------------------------------------
     # generation
 
+    RECOVER_BAD = (0, 99, 600, 999, -1)
+
+    def _corpus_recover(self):
+        """FIRST in every run: the chain the rest engine builds, Timeout -> Recover -> work.  The work passes an
+        invalid status code (0 = unset field, a proxied 999, anything outside 100..599) to WriteHeader as its
+        FIRST status call (checkWriteHeaderCode panics inside the timeout writer, under tw.mu), as a later one
+        (ignored), after a Write, after the timeout; or panics itself.  The RecoverHandler then calls
+        WriteHeader(500) on the timeout writer — one more locked method — and returns; the Done event at every
+        place around the panic, the recovery's reply and the return.  Every error path of the writer must leave
+        tw.mu free: a hang here shows as ServeHTTP not returning (SoWait / ret_at_d = 0).
+        Single requests with a gate between Recover and the timeout writer (rest), two requests through one
+        chain (seq), and a real rest.Server with conf.Middlewares.Recover (srv, recovery ungated)."""
+        res = []
+        own = [[1, [5]]]
+        for k, code in enumerate(self.RECOVER_BAD):
+            first = [["wh", code]]
+            res.append(self._rest(first, own, "none", 0, rec=True, fl=k % 2 == 0))
+            res.append(self._rest(first, own, "cancel", 1, rec=True))      # D between the panic and the 500
+            later = [["set", 1, 7], ["wh", 201], ["wh", code], ["w", [200]]]
+            res.append(self._rest(later, own, "none", 0, rec=True))
+            res.append(self._rest(later, [], "cancel", 3, rec=True, fl=True))
+            afterw = [["w", [200]], ["wh", code], ["w", [201]]]
+            res.append(self._rest(afterw, [], "none", 0, rec=True))
+            res.append(self._rest(afterw, own, "cancel", 0, rec=True))     # refused Write, then the code panics AFTER the timeout
+            hdr = [["set", 2, 9], ["wh", code], ["w", [200]]]
+            res.append(self._rest(hdr, own, ("deadline", "race", "cancel", "pre", "race")[k], 1, rec=True, yld=k))
+        for code in (0, 999):
+            for pos in (0, 2, 3, 4):
+                res.append(self._rest([["wh", code]], own, "cancel", pos, rec=True, fl=pos == 2))
+        # the work's own panic, a flushed-through prefix, a context check in front
+        res.append(self._rest([["w", [200]], ["panic", 4]], own, "none", 0, rec=True))
+        for pos in (1, 2, 3):
+            res.append(self._rest([["set", 1, 7], ["panic", 4]], own, "cancel", pos, rec=True))
+        res.append(self._rest([["w", [200]], ["flush"], ["wh", 0], ["panic", 3]], [], "none", 0, rec=True, fl=True))
+        res.append(self._rest([["w", [200]], ["flush"], ["panic", 3]], [], "cancel", 3, rec=True, fl=True))
+        res.append(self._rest([["chk"], ["wh", 600]], [], "cancel", 0, rec=True))
+        res.append(self._rest([["chk"], ["wh", 600]], [], "cancel", 1, rec=True))
+        # exempt requests: the recovery answers on the real writer (its own check: 100..999)
+        res.append(self._rest([["wh", 0], ["w", [200]]], own, "none", 0, req="ws", rec=True))
+        res.append(self._rest([["wh", 999], ["w", [200]]], own, "none", 0, req="sse", rec=True))
+        res.append(self._rest([["wh", 1000]], own, "cancel", 1, dur=0, rec=True))
+        # two requests through ONE chain: the first one's invalid code, the second served meanwhile / afterwards
+        for code in (0, 999, -1):
+            reqs = [{"h0": [], "script": [["wh", code]], "fl": False},
+                    {"h0": own, "script": [["wh", 404], ["w", [200]]], "fl": True}]
+            a = [["start", 0], ["H", 0], ["H", 0], ["H", 0]]
+            b = [["start", 1], ["H", 1], ["H", 1], ["H", 1]]
+            res.append(self._seq(reqs, a + b, rec=True))
+            res.append(self._seq(reqs, a[:2] + b + a[2:], rec=True))
+            res.append(self._seq(reqs, [["start", 0], ["start", 1], ["H", 0], ["D", 0], ["H", 1], ["H", 0], ["H", 1],
+                                        ["H", 0], ["H", 1]], rec=True))
+        # a real rest.Server, Recover switched on like in the default configuration
+        for code in self.RECOVER_BAD:
+            for hdrs in ([], [["Upgrade", "websocket"]]):
+                q0 = {"group": 0, "route": 0, "hdrs": hdrs, "parent_ns": None, "fl": True, "h0": [], "deadline": False,
+                      "script": [["set", 1, 7], ["wh", code], ["w", [200]]]}
+                q1 = {"group": 1, "route": 0, "hdrs": [], "parent_ns": None, "fl": True, "h0": own, "deadline": False,
+                      "script": [["wh", 201], ["wh", code], ["w", [201]]]}
+                c = {"kind": "srv", "conf_ms": 60000, "mw_timeout": True, "mw_inner": code == 600, "rec": True,
+                     "groups": [{"opts": [["timeout", HOUR]], "n": 1}, {"opts": [], "n": 1}], "reqs": [q0, q1],
+                     "order": [["start", 0], ["H", 0], ["start", 1], ["H", 1], ["H", 0], ["H", 1], ["H", 1], ["H", 1]],
+                     "procs": 0}
+                res.append(c)
+        return res
+
     def corpus(self):
         s1 = [["set", 1, 7], ["wh", 201], ["w", [200, 201]], ["set", 2, 9], ["w", [202]]]
-        res = []
+        res = self._corpus_recover()
         for pos in range(0, 7):
             for mode in ("cancel", "deadline", "race"):
                 res.append(self._rest(s1, [[1, [5]]], mode, pos, yld=pos % 3))
@@ -339,11 +404,14 @@ class C04(Property):
                                               caller, confs, 1))
         return res
 
-    def _rest(self, script, h0, mode, pos, req="plain", dur=None, parent=None, yld=0, fl=False):
+    def _rest(self, script, h0, mode, pos, req="plain", dur=None, parent=None, yld=0, fl=False, rec=False):
         if dur is None:
             dur = SHORT if mode == "deadline" else HOUR
-        return {"kind": "rest", "req": req, "dur_ns": dur, "parent_ns": parent, "h0": h0, "fl": fl,
-                "script": script, "d": {"mode": mode, "pos": pos, "yield": yld}}
+        c = {"kind": "rest", "req": req, "dur_ns": dur, "parent_ns": parent, "h0": h0, "fl": fl,
+             "script": script, "d": {"mode": mode, "pos": pos, "yield": yld}}
+        if rec:
+            c["rec"] = True          # handler.RecoverHandler between the timeout middleware and the work
+        return c
 
     @staticmethod
     def _info_first(script, fl):
@@ -411,26 +479,34 @@ class C04(Property):
             script = self._script(rng)
             h0 = self._h0(rng)
             fl = rng.random() < 0.6
-            steps = len(script) + 1
+            # one script in three runs behind a RecoverHandler (then a script that panics goes on for two more
+            # handler actions: the recovery's WriteHeader(500) and the return)
+            rec = rng.random() < 0.34
+            if rec:
+                script = self._no_info_first(self._no_info_first(script, True), False)
+                if rng.random() < 0.5 and not any(a[0] == "panic" or (a[0] == "wh" and a[1] in BAD_CODES) for a in script):
+                    j = rng.randint(0, len(script))
+                    script = script[:j] + [rng.choice([["wh", rng.choice(BAD_CODES)], ["panic", rng.randint(1, 9)]])] + script[j:]
+            steps = len(script) + 1 + (2 if rec else 0)
             par = rng.choice([None, None, HOUR // 2, 2 * HOUR])
-            cases.append(self._rest(script, h0, "none", 0, parent=par, fl=fl))
-            cases.append(self._rest(script, h0, "pre", 0, parent=par, fl=fl))
+            cases.append(self._rest(script, h0, "none", 0, parent=par, fl=fl, rec=rec))
+            cases.append(self._rest(script, h0, "pre", 0, parent=par, fl=fl, rec=rec))
             for pos in range(0, steps + 1):
-                cases.append(self._rest(script, h0, "cancel", pos, parent=par, fl=fl))
+                cases.append(self._rest(script, h0, "cancel", pos, parent=par, fl=fl, rec=rec))
             for pos in range(0, steps):
                 if rng.random() < 0.5:
-                    cases.append(self._rest(script, h0, "deadline", pos, parent=rng.choice([None, 2 * HOUR]), fl=fl))
+                    cases.append(self._rest(script, h0, "deadline", pos, parent=rng.choice([None, 2 * HOUR]), fl=fl, rec=rec))
                 else:
-                    cases.append(self._rest(script, h0, "deadline", pos, dur=HOUR, parent=SHORT, fl=fl))
-                cases.append(self._rest(script, h0, "race", pos, parent=par, yld=rng.choice([0, 0, 1, 3, 8]), fl=fl))
+                    cases.append(self._rest(script, h0, "deadline", pos, dur=HOUR, parent=SHORT, fl=fl, rec=rec))
+                cases.append(self._rest(script, h0, "race", pos, parent=par, yld=rng.choice([0, 0, 1, 3, 8]), fl=fl, rec=rec))
             x = rng.random()
             pos = rng.randint(0, steps)
             if x < 0.25:
-                cases.append(self._rest(script, h0, "cancel", pos, req="ws", parent=par, fl=fl))
+                cases.append(self._rest(script, h0, "cancel", pos, req="ws", parent=par, fl=fl, rec=rec))
             elif x < 0.5:
-                cases.append(self._rest(script, h0, "cancel", pos, req="sse", parent=par, fl=fl))
+                cases.append(self._rest(script, h0, "cancel", pos, req="sse", parent=par, fl=fl, rec=rec))
             elif x < 0.65:
-                cases.append(self._rest(script, h0, "cancel", pos, dur=rng.choice([0, -5]), parent=par, fl=fl))
+                cases.append(self._rest(script, h0, "cancel", pos, dur=rng.choice([0, -5]), parent=par, fl=fl, rec=rec))
         cases = cases[:max(n_rest, 1)]
         cases += self._gen_seq(rng, n_seq)
         cases += self._gen_srv(rng, (n * 14) // 100)
@@ -467,14 +543,17 @@ class C04(Property):
                 acts.append(["panic", rng.randint(1, 9)])
         return self._no_info_first(self._no_info_first(acts, True), False)
 
-    def _seq(self, reqs, order):
+    def _seq(self, reqs, order, rec=False):
         c = {"kind": "seq", "dur_ns": HOUR, "reqs": reqs, "order": order}
+        if rec:
+            c["rec"] = True
         c["procs"] = int(vlib.canon_hash(c), 16) % 2       # half of them on a single P (per-P caches)
         return c
 
     def _gen_seq(self, rng, n):
         cases = []
         while len(cases) < n:
+            n0, rec = len(cases), rng.random() < 0.3      # Timeout -> Recover -> work
             a = self._seq_script(rng, 0, False)      # the abandoned handler ignores its context
             b = self._seq_script(rng, 1, True)
             reqs = [{"h0": self._h0(rng), "script": a, "fl": rng.random() < 0.6},
@@ -511,6 +590,9 @@ class C04(Property):
                 r3 = reqs + [{"h0": [], "script": c3, "fl": rng.random() < 0.5}]
                 cases.append(self._seq(r3, head + bseq[:2] + late[:1] + bseq[2:] + [["start", 2]] + late[1:2]
                                        + [["H", 2]] * (len(c3) + 1) + late[2:]))
+            if rec:
+                for c in cases[n0:]:
+                    c["rec"] = True
         return cases[:n]
 
     # a real rest.Server with several routes ---------------------------------------
@@ -586,6 +668,8 @@ class C04(Property):
         while len(cases) < n:
             c = {"kind": "srv", "conf_ms": rng.choice([0, 60000, 60000, 3600000]), "mw_timeout": rng.random() < 0.85,
                  "mw_inner": rng.random() < 0.25, "groups": [], "reqs": [], "order": []}
+            if rng.random() < 0.6:
+                c["rec"] = True          # conf.Middlewares.Recover, as in the default configuration
             for _ in range(rng.choice([2, 3, 3, 4])):
                 c["groups"].append({"opts": rng.choice(self.GROUP_OPTS), "n": rng.choice([1, 1, 2])})
             nreq = rng.choice([2, 2, 3])
@@ -1026,6 +1110,9 @@ class C04(Property):
             return "RWriteTimeout"
         if t == "ctx":
             return "RCtx %s" % cbool(o[1])
+        if t == "rec":
+            # the RecoverHandler's WriteHeader: its code is part of the report
+            return "RNone" if o[1] == self.consts.get("recover_code", 500) else "RWriteOk (-2)"
         if t == "panic":
             if o[1] == "user":
                 return "RPanic (PUser %s)" % cz(o[2])
@@ -1085,9 +1172,31 @@ class C04(Property):
 
     def _coq_seq(self, c, o):
         rs, sched, hobs = self._seq_reqs(c, o)
-        return "CSeq (mkSeq %s %s %s %s %s)" % (cz(c["dur_ns"]), rs, sched, hobs, cz(o["ret_at_d"]))
+        return "CSeq (mkSeq %s %s %s %s %s %s)" % (cbool(c.get("rec", False)), cz(c["dur_ns"]), rs, sched, hobs,
+                                                   cz(o["ret_at_d"]))
+
+    @staticmethod
+    def _ungated_recovery(o):
+        """server cases: the engine's own RecoverHandler is not gated.  Right after a panic report of request i
+        its recovery's WriteHeader(500) and the handler's return have happened (or the request hangs: then the
+        case fails prop_ok as SoWait whatever is inserted here): two more handler events of i, in place."""
+        sched, hobs, hp = [], [], 0
+        for i, e in o["sched"]:
+            sched.append([i, e])
+            if e == "H":
+                ob = o["hobs"][hp]
+                hp += 1
+                hobs.append(ob)
+                if len(ob) > 1 and ob[1] == "panic":
+                    sched += [[i, "H"], [i, "H"]]
+                    hobs += [[i, "none"], [i, "none"]]
+        o = dict(o)
+        o["sched"], o["hobs"] = sched, hobs + o["hobs"][hp:]
+        return o
 
     def _coq_srv(self, c, o):
+        if c.get("rec"):
+            o = self._ungated_recovery(o)
         # the wrapper of an SSE route sets its headers when the route handler starts, before the
         # scripted handler's first gate: these are H events of that request right before its first event
         nsse = len(self.consts["sse_headers"])
@@ -1112,8 +1221,8 @@ class C04(Property):
         rs, sched, hobs = self._seq_reqs(c, o)
         groups = clist([clist(["(OptTimeout %s)" % cz(x[1]) if x[0] == "timeout" else "OptSSE" for x in g["opts"]])
                         for g in c["groups"]])
-        return "CSrv (mkSrv %s %s %s %s %s %s %s %s %s %s)" % (
-            cz(c["conf_ms"]), cbool(c["mw_timeout"]), groups, rs, sched, hobs, cz(o["ret_at_d"]),
+        return "CSrv (mkSrv %s %s %s %s %s %s %s %s %s %s %s)" % (
+            cbool(c.get("rec", False)), cz(c["conf_ms"]), cbool(c["mw_timeout"]), groups, rs, sched, hobs, cz(o["ret_at_d"]),
             cz(o["read_ns"]), cz(o["write_ns"]), cz(o["eng_ns"]))
 
     def _coq_sseq(self, c, o):
@@ -1187,7 +1296,7 @@ class C04(Property):
         if sout is None:
             sout = "(SoPanic %s)" % self._pval(o["pkind"], o["pval"])
         fields = [
-            cbool(c.get("fl", False)),
+            cbool(c.get("rec", False)), cbool(c.get("fl", False)),
             self._hdrs(c["h0"]), clist([self._act(a) for a in self._expand(c["script"], o["hobs"])]), cz(c["dur_ns"]), rq,
             self._optz(self._par(c)), copt(_kind(c["d"]["mode"])),
             cbool(o["wrapped"]), clist([self._ev(e) for e in o["sched"]]),
@@ -1254,6 +1363,13 @@ class C04(Property):
         for u in [case] + list(case.get("reqs", [])) + list(case.get("calls", [])):
             if u.get("pshape"):
                 fs.append("ctx=%s:%s" % (case["kind"], u["pshape"]))
+        if case.get("rec"):
+            fs.append("recover=" + case["kind"])
+            obs_l = obs["hobs"]
+            if any("panic" in x for x in obs_l):
+                fs.append("recover:panic_recovered=" + case["kind"])
+        if obs.get("hung"):
+            fs.append("hung=" + case["kind"])
         if case["kind"] == "rest":
             fs.append("rest:mode=" + case["d"]["mode"])
             fs.append("rest:req=" + case["req"])
@@ -1358,6 +1474,10 @@ class C04(Property):
                     c = copy.deepcopy(case)
                     c["script"][j] = ["w", a[1][:1]]
                     res.append(c)
+        if case.get("rec") and case["kind"] in ("rest", "seq", "srv"):
+            c = copy.deepcopy(case)
+            del c["rec"]
+            res.append(c)
         if case["kind"] in ("rest",) and case.get("fl"):
             c = copy.deepcopy(case)
             c["fl"] = False
@@ -1470,6 +1590,11 @@ class C04(Property):
         return None
 
     def describe_failure(self, case, obs):
+        if obs.get("hung") or (case["kind"] in ("seq", "srv") and obs.get("stuck", -1) >= 0 and case.get("rec")):
+            return ("timeout middleware: a handler action never came back — a goroutine sat on a mutex of rest/handler for "
+                    "seconds (a lock of the timeout writer held across a panic / error path, e.g. an invalid status code "
+                    "recovered by the RecoverHandler inside the timeout handler, whose WriteHeader(500) then blocks); "
+                    "ServeHTTP neither completed nor returned at the deadline")
         if case["kind"] == "rest":
             return ("REST timeout handler: the response is not the handler's complete response, the 503/499 timeout "
                     "response or the re-raised panic; or something was written after the timeout / a late Write was not "
